@@ -100,6 +100,17 @@ def otpClearPost : H PUnit := do
 /-- Default register whitelist (`defaults.NewHTTPBodyReader`). -/
 def registerWhitelist : List Bytes := [lit "email"]
 
+/-- `CreatingServerStorer.Create`: `some true` = created, `some false` = `ErrUserFound`,
+`none` = other error. -/
+def createUser (u : User) : H (Option Bool) := do
+  match ← backend with
+  | some .userFound => pure (some false)
+  | some _ => pure none
+  | none =>
+    if ((← get).store.find u.pid).isSome then pure (some false) else
+    modify fun c => { c with store := c.store.upsert u }
+    pure (some true)
+
 /-- `register.Post`. -/
 def registerPost : H PUnit := do
   let c ← get
@@ -111,15 +122,7 @@ def registerPost : H PUnit := do
   if ← hash then fail "hash" else
   let arb := c.req.extra.filter fun kv => registerWhitelist.contains kv.1
   let u : User := { pid := pid, email := pid, pw := c.req.pw, arbitrary := arb }
-  let created ← (do
-    match ← backend with
-    | some .userFound => pure (some false)
-    | some _ => pure none
-    | none =>
-      if ((← get).store.find pid).isSome then pure (some false) else
-      modify fun c => { c with store := c.store.upsert u }
-      pure (some true))
-  match created with
+  match ← createUser u with
   | none => fail "create"
   | some false =>
     logf "user %s attempted to re-register" [pid]
@@ -312,7 +315,7 @@ def oauth2End : H PUnit := do
     let base : User := match c.store.find pid with
       | some u => u
       | none => { pid := pid, email := puid ++ lit "@oauth.test", oauthUid := puid, confirmed := true }
-    let u := { base with oauthProvider := provider }
+    let u := { base with oauthUid := puid, oauthProvider := provider }
     -- SaveOAuth2
     match ← backend with
     | some _ => fail "save-oauth2"
@@ -388,6 +391,8 @@ def totpPostValidate : H PUnit := do
     else
       let c ← get
       if c.cfg.oneTime then (if ← save u then fail "save" else pure ⟨⟩)
+      setCtxUser u
+      if ← fireBefore .auth then stop .done else
       putS .uid u.pid
       putS .twofactor (lit "totp")
       delS .halfauth
@@ -496,23 +501,28 @@ def smsSendCodePage (pg : SmsPage) (u : User) : H PUnit := do
     | .sent => respond pg.page
     | _ => fail "send-code"
 
+/-- The verification part of `SMSValidator.validateCode`: recovery code (consumed and saved)
+or the code held in the session. -/
+def smsVerdict (pg : SmsPage) (u : User) : H (User × Bool) := do
+  let c ← get
+  let useRec := !c.req.rcode.isEmpty && pg != .confirm
+  if useRec then
+    match useRecoveryCode u.recCodes c.req.rcode with
+    | some rest =>
+      logf "user %s used recovery code instead of sms2fa" [u.pid]
+      let u' := { u with recCodes := rest }
+      writeBack u'
+      if ← save u' then fail "save" else pure (u', true)
+    | none => pure (u, false)
+  else
+    match c.sess.get .smsSecret with
+    | none => fail "no code in session"
+    | some code => if code.isEmpty then fail "no code in session" else pure (u, c.req.code == code)
+
 /-- `SMSValidator.validateCode`. -/
 def smsValidateCode (pg : SmsPage) (u : User) : H PUnit := do
   let c ← get
-  let useRec := !c.req.rcode.isEmpty && pg != .confirm
-  let verdict ← (do
-    if useRec then
-      match useRecoveryCode u.recCodes c.req.rcode with
-      | some rest =>
-        logf "user %s used recovery code instead of sms2fa" [u.pid]
-        let u' := { u with recCodes := rest }
-        writeBack u'
-        if ← save u' then fail "save" else pure (u', true)
-      | none => pure (u, false)
-    else
-      match c.sess.get .smsSecret with
-      | none => fail "no code in session"
-      | some code => if code.isEmpty then fail "no code in session" else pure (u, c.req.code == code))
+  let verdict ← smsVerdict pg u
   let (u, verified) := verdict
   if !verified then
     setCtxUser u
@@ -545,6 +555,8 @@ def smsValidateCode (pg : SmsPage) (u : User) : H PUnit := do
     logf "user %s disabled sms 2fa" [u.pid]
     respond .smsRemoveSuccess
   | .validate =>
+    setCtxUser u
+    if ← fireBefore .auth then stop .done else
     putS .uid u.pid
     putS .twofactor (lit "sms")
     delS .halfauth
